@@ -12,7 +12,7 @@ fn nontrivial(v: &Verdict) -> bool {
 }
 
 pub fn exec(line: &str, rec: &mut Recorder) {
-    if line.starts_with("msg ") || line.starts_with("rt ") || line.starts_with("asm ") || line.starts_with("resp ") || line.starts_with("tsnew ") || line.starts_with("undec ") {
+    if line.starts_with("msg ") || line.starts_with("rt ") || line.starts_with("asm ") || line.starts_with("resp ") || line.starts_with("tsnew ") || line.starts_with("undec ") || line.starts_with("rtok ") || line.starts_with("svcbenc ") || line.starts_with("ednsrc ") {
         crate::props::msgemit::exec(line, rec, |v| v.n_err == 0 && v.len > 40)
     } else {
         encscript::exec(line, rec, nontrivial)
@@ -279,6 +279,16 @@ pub fn run(o: &Opts, rec: &mut Recorder) {
     // per-type boundary values of every RDATA codec (decode -> encode -> decode, model-compared)
     for l in directed_rdata_boundaries(o.seed) {
         rec.stat("line.rt.directed-rdata");
+        exec(&l, rec);
+    }
+    // SVCB keys across the ranges of SvcParamKey (registered / unknown / private use / 65535), and the
+    // Edns value's rcode_high against the message's response code (round-2 seeds 1 and 3)
+    for l in directed_svcb_key_ranges() {
+        rec.stat("line.directed-svcb-key-ranges");
+        exec(&l, rec);
+    }
+    for l in directed_edns_rcode() {
+        rec.stat("line.directed-edns-rcode");
         exec(&l, rec);
     }
     // names after the 0x3FFF / 0x4000 boundary of compression pointers, in whole messages
@@ -620,6 +630,93 @@ fn directed_offset_boundary() -> Vec<String> {
         m.add_additional(Record::from_rdata(nm(&["www", "fresh", "tail", "example"]), 60, RData::A(A::new(10, 3, 0, 2))));
         if let Ok(b) = m.to_vec() {
             v.push(format!("rt {}", hex(&b)));
+        }
+    }
+    v
+}
+
+/// Directed family: SvcParams whose keys are drawn from ALL range classes of `SvcParamKey` — 0..6
+/// registered, 7..65279 unknown (incl. 7 and 65279), 65280..65534 private use, 65535 — in every pairwise
+/// combination and order, as wire input (`rtok`: strictly increasing, must decode and round-trip;
+/// `undec`: equal / decreasing, must be refused) and as values to encode (`svcbenc`); plus chains
+/// across all the ranges.
+fn directed_svcb_key_ranges() -> Vec<String> {
+    let keys = [0u16, 1, 2, 3, 4, 5, 6, 7, 8, 1000, 65279, 65280, 65281, 65534, 65535];
+    let wire_val = |k: u16| -> Vec<u8> {
+        match k {
+            0 => vec![0, 1],
+            1 => vec![2, b'h', b'2'],
+            2 => vec![],
+            3 => vec![1, 187],
+            4 => vec![192, 0, 2, 1],
+            5 => vec![1, 2, 3],
+            6 => vec![0x20, 1, 0x0d, 0xb8, 0, 0, 0, 0, 0, 0, 0, 0, 0, 0, 0, 1],
+            _ => vec![(k % 256) as u8, 7],
+        }
+    };
+    let rdata = |ks: &[u16]| -> Vec<u8> {
+        let mut d = vec![0u8, 1, 0];
+        for k in ks {
+            let v = wire_val(*k);
+            d.extend(k.to_be_bytes());
+            d.extend((v.len() as u16).to_be_bytes());
+            d.extend(v);
+        }
+        d
+    };
+    let show = |ks: &[u16]| ks.iter().map(|k| k.to_string()).collect::<Vec<_>>().join(",");
+    let mut v = vec![];
+    let mut id = 0x5800u16;
+    let mut chains: Vec<Vec<u16>> = vec![];
+    for a in keys {
+        for b in keys {
+            chains.push(vec![a, b]);
+        }
+    }
+    chains.push(keys.to_vec());
+    chains.push(vec![6, 7, 65280, 65535]);
+    chains.push(vec![7, 65279, 65280, 65534, 65535]);
+    chains.push(vec![1, 3, 7, 65535]);
+    chains.push(vec![65280, 7]);
+    chains.push(vec![65535, 65279]);
+    chains.push(vec![0, 65535, 7]);
+    chains.push(keys.iter().rev().copied().collect());
+    for (i, ks) in chains.iter().enumerate() {
+        let ty = if i % 3 == 2 { 65u16 } else { 64 };
+        let increasing = ks.windows(2).all(|w| w[0] < w[1]);
+        id = id.wrapping_add(1);
+        let wire = hex(&rec_message(id, ty, &rdata(ks)));
+        v.push(format!("{} {wire}", if increasing { "rtok" } else { "undec" }));
+        v.push(format!("svcbenc {ty} {}", show(ks)));
+    }
+    v.push("svcbenc 64 -".into());
+    v
+}
+
+/// Directed family: the Edns VALUE handed to the message carries an rcode_high DIFFERENT from the high
+/// bits of the message's response code (set through the public API, or taken from a decoded message);
+/// and flags / version / DO / max_payload at their extremes.  `emit_message_parts` must overwrite the
+/// stale value with the response code's high bits, every other field must come back unchanged.
+fn directed_edns_rcode() -> Vec<String> {
+    let mut v = vec![];
+    for via in ["s", "d"] {
+        for stale in [0u8, 1, 2, 0x0F, 0x10, 0x80, 0xFF] {
+            for high in [0u8, 1, 0x0F, 0xF0, 0xFF] {
+                for low in [0u8, 3, 15] {
+                    v.push(format!("ednsrc {via} {low} {high} {stale} 0 1 0 1232"));
+                }
+            }
+        }
+    }
+    for version in [0u8, 1, 255] {
+        for dok in [0u8, 1] {
+            for z in [0u16, 1, 0x4000, 0x7FFF] {
+                for payload in [0u16, 511, 512, 1232, 65535] {
+                    for (stale, high) in [(0u8, 0u8), (0xFF, 0), (0, 0xFF), (0xAA, 0x55)] {
+                        v.push(format!("ednsrc s 5 {high} {stale} {version} {dok} {z} {payload}"));
+                    }
+                }
+            }
         }
     }
     v
